@@ -51,7 +51,7 @@ for i, (l, z) in enumerate(_LZ):
 REPR3 += [(('csr', 'z1', 'sort_rev'), ('csc', 'nz', 'filter_all'), ('csr_unsorted', 'zall', 'transpose2')),
           (('csc', 'zall', 'nnz'), ('csr', 'nz', 'sort_rev'), ('csr', 'z1', 'nnz')),
           (('csr_unsorted', 'nz', 'transpose2'), ('csr_unsorted', 'z1', 'filter_all'), ('csc', 'z1', 'sort_rev'))]
-ID_KINDS = ('plain', 'punct', 'nonascii', 'long', 'numeric')
+ID_KINDS = ('plain', 'punct', 'nonascii', 'long', 'numeric', 'natlex')
 VIAS = ('method_list', 'method_single', 'biom_list', 'biom_single')
 
 
@@ -193,7 +193,7 @@ def concat_cases(tier, splits=AXIS_SPLITS):
                             for j in range(nrep):
                                 n += 1
                                 rep = REPR3[(n + 5 * j) % len(REPR3)] if quick else REPR3[j]
-                                kinds = [ID_KINDS[n % 5]] if quick else [ID_KINDS[n % 5], ID_KINDS[(n + 2) % 5]]
+                                kinds = [ID_KINDS[n % len(ID_KINDS)]] if quick else [ID_KINDS[n % len(ID_KINDS)], ID_KINDS[(n + 2) % len(ID_KINDS)]]
                                 for kind in kinds:
                                     yield {'ops': _ops(axis, axis_pos, other_pos, mdc, rep, n % 19), 'ids': kind,
                                            'axis': axis, 'via': via, 'pattern': pname, 'md': mdc}
@@ -211,7 +211,7 @@ def deep_cases():
                             for via in _vias(2):
                                 n += 1
                                 rep = (r0 + ('none',), r1 + ('none',))
-                                yield {'ops': _ops(axis, axis_pos, other_pos, mdc, rep, n % 23), 'ids': ID_KINDS[n % 5],
+                                yield {'ops': _ops(axis, axis_pos, other_pos, mdc, rep, n % 23), 'ids': ID_KINDS[n % len(ID_KINDS)],
                                        'axis': axis, 'via': via, 'pattern': pname, 'md': mdc}
             for r2 in _LZ:
                 for pname, other_pos in OTHER_PATTERNS[3].items():
@@ -219,7 +219,7 @@ def deep_cases():
                         n += 1
                         rep = (r0 + ('none',), r1 + ('none',), r2 + ('none',))
                         yield {'ops': _ops(axis, AXIS_SPLITS[3][n % 2], other_pos, 'later', rep, n % 23),
-                               'ids': ID_KINDS[n % 5], 'axis': axis, 'via': 'method_list' if n % 2 else 'biom_list',
+                               'ids': ID_KINDS[n % len(ID_KINDS)], 'axis': axis, 'via': 'method_list' if n % 2 else 'biom_list',
                                'pattern': pname, 'md': 'later'}
 
 
